@@ -100,6 +100,10 @@ def run(ctx, focus='C11'):
             # a transition smoothed to the highest level (10): seen once against tens of thousands of `a -> a`
             pws = ['a' * 21] * 2750 + ['aab']
             ngram, mode, maxlen, asize = 2, 'level-10-transition', 21, 100
+        if i == 4:
+            # strings whose level is above 10 as a *sum* of transition costs none of which is 10 (a -> b at 6, b -> c at 5)
+            pws = ['aaa'] * 450 + ['bbb'] * 200 + ['abc']
+            ngram, mode, maxlen, asize = 2, 'sum-above-ten', 4, 100
         if i == 1 and ngram == 3:
             ngram = 4 if all(len(p_) >= 1 for p_ in pws) and any(len(p_) >= 4 for p_ in pws) else 2
         try:
@@ -188,6 +192,8 @@ def run(ctx, focus='C11'):
                 glevel.setdefault(s, []).append(L)
             lmax = L
         dist['guesser_levels_enumerated'] += lmax + 1
+        if i == 4:
+            dist['strings_above_level_10'] = sum(n_ for L_, n_ in per_level.items() if L_ > 10)
         if focus == 'C18':
             listed = dict(ks)
             ops.append(f"ot.keyspace {10 ** 10} 18")
